@@ -159,6 +159,31 @@ def r05_3(ctx, rule):
                'a truthy result requires both %s and %s to be truthy' % (start, limit))
 
 
+def r05_6(ctx, rule):
+    ctx.rule(rule, 'every scan evaluates the hard limit of every pending job: no path through an iteration of the '
+                   'scan skips the hard test (except for a job that is already resolved)', floor=1)
+    S = Scan(ctx)
+    fi, cfg = S.fi, S.cfg
+    hard_tests = []
+    for (hn, hc) in S.hard:
+        for tid, (tn, e) in S.tests.items():
+            edges = {(tn.id, b, l) for (b, l) in cfg.succ[tn.id] if l == 't'}
+            body_r = cfg.reach([b for (b, l) in cfg.succ[S.loop.id] if l == 't'], block_edges=edges,
+                               block_nodes={S.loop.id}, include_src=True)
+            if hn.id not in body_r:
+                hard_tests.append(tn)
+    q.need(hard_tests, 'hard test not identified')
+    resolved = q.outcome_edges(fi, S.job + '.ready()', True)
+    ok, w = q.every_iteration_passes(fi, S.loop, hard_tests, block_edges=resolved)
+    ctx.ob(rule, 'scan:hard-limit-tested-for-every-job', ok, fi, S.loop,
+           'each iteration over the cache reaches the hard _timed_out test' if ok else
+           'an iteration can finish without looking at the job\'s hard limit (e.g. a job that was soft-signalled '
+           'is never hard-limited)', path=w)
+    early = q.loop_early_exits(fi, S.loop)
+    ctx.ob(rule, 'scan:visits-every-job', not early, fi, early[0] if early else S.loop,
+           'the loop over the cache copy is left only when exhausted')
+
+
 def r05_5(ctx, rule):
     ctx.rule(rule, 'a job past its hard limit is never only soft-signalled: the soft action is reachable only '
                    'when the hard test was falsy', floor=1)
